@@ -13,7 +13,7 @@ from .driver import Case
 from .vlib import b, lst
 
 PROP = "C20"
-HEADER = "From Attrs Require Import Base C20.Model C20.Corr."
+HEADER = "From Attrs Require Import Base C20.Model C20.Pipe C20.Corr."
 CASE_TYPE = "case"
 CHECK = "check_case"
 MODEL = "model_of"
@@ -24,8 +24,14 @@ RULE = ("every sequence over the 8 state-changing operations {set_disabled(T/F),
         "sequences up to length 14; after EVERY operation the harness reads get_disabled(), "
         "get_run_validators(), constructs an attr.s and a define instance, assigns to a field "
         "hooked with setters.validate / [convert, validate] / define's default, and calls "
-        "attr.validate(); distinct = distinct (initial value, op sequence); non-trivial = "
-        "contains at least one context entry or a setter call")
+        "attr.validate(), and replays a fixed set of footprint scenarios (hooks after validate in a pipe, "
+        "attrs exception classes, post-init, hash cache, factories, pickling) whose non-validator trace and "
+        "resulting state must equal the ones recorded with validators enabled; at the END of every "
+        "sequence two random on_setattr hook trees (validate/convert/user hooks, lists and setters.pipe "
+        "nested to depth 3, validator threshold random) are assigned through and one random init tail "
+        "(0-3 validated fields, post-init, cache_hash, exception class, slots) is constructed, and their "
+        "traces are compared with C20/Pipe.v in the model's final state; distinct = distinct (initial "
+        "value, op sequence); non-trivial = contains at least one context entry or a setter call")
 EXTRA_TRUSTED = ["contextlib.contextmanager / generator semantics (the model's frame stack stands "
                  "for the suspended generator frames of validators.disabled())"]
 ASSUMPTIONS = ["_config._run_validators is only written through the public API during a sequence "
@@ -89,6 +95,340 @@ class DFd(DF):
     z: int = attrs.field(default=0, validator=_rec)
 
 
+# --- "unaffected by the switch" footprint classes: everything other than the validator calls themselves
+# (converters, non-validating hooks in any position of a pipe, __attrs_post_init__, the hash cache,
+# BaseException.__init__ of attrs exception classes) must leave the same trace and the same state in
+# every switch state.
+
+def _audit(inst, a, v):
+    _log.append(("a", a.name, v))
+    return v
+
+
+def _audit2(inst, a, v):
+    _log.append(("a2", a.name, v))
+    return v
+
+
+def _strip(v):
+    _log.append(("c",))
+    return v.strip() if isinstance(v, str) else v
+
+
+@attr.s
+class FPvca:
+    x = attr.ib(default="d", validator=_rec, converter=_strip, on_setattr=[setters.validate, setters.convert, _audit])
+
+
+@attrs.define(on_setattr=setters.pipe(setters.validate, _audit))
+class FPva:
+    y: int = attrs.field(default=0, validator=_rec)
+
+
+@attrs.define(on_setattr=[_audit, setters.validate, _audit2, setters.convert])
+class FPavac:
+    y: str = attrs.field(default="q", validator=_rec, converter=_strip)
+    n: int = 0
+
+
+@attrs.define(on_setattr=setters.pipe(setters.pipe(setters.validate, _audit), setters.pipe(setters.convert, _audit2)))
+class FPnested:
+    y: str = attrs.field(default="q", validator=_rec, converter=_strip)
+
+
+@attrs.define
+class FPexc(Exception):
+    a: int = attrs.field(validator=_rec)
+    b: str = attrs.field(default="dflt", validator=_rec, converter=_strip)
+
+
+@attr.s(auto_exc=True, slots=True)
+class FPexcs(Exception):
+    a = attr.ib(validator=_rec)
+    b = attr.ib(default=7)
+
+
+@attrs.define
+class FPexcpost(Exception):
+    a: int = attrs.field(validator=_rec)
+
+    def __attrs_post_init__(self):
+        _log.append(("post",))
+
+
+@attrs.define
+class FPpost:
+    a: int = attrs.field(validator=_rec)
+    t: int = attrs.field(init=False, default=5)
+
+    def __attrs_post_init__(self):
+        _log.append(("post",))
+        self.t = self.a * 2
+
+
+@attr.s(frozen=True, cache_hash=True, eq=True)
+class FPhash:
+    a = attr.ib(validator=_rec)
+    b = attr.ib(default=2)
+
+
+@attrs.define
+class FPmixed:
+    a: int = attrs.field(validator=_rec)
+    b: int = attrs.field(factory=lambda: (_log.append(("f",)), 3)[1])
+    c: int = attrs.field(default=4, validator=[_rec, _rec])
+
+
+def _fp_state(i):
+    d = {a.name: getattr(i, a.name, "<unset>") for a in attr.fields(type(i))}
+    if isinstance(i, BaseException):
+        d["args"] = i.args
+    return repr(sorted(d.items()))
+
+
+def _fp_scenarios():
+    out = []
+
+    def scen(name, fn):
+        _log.clear()
+        try:
+            r = fn()
+        except Exception as e:            # noqa: BLE001
+            r = "raised %s" % type(e).__name__
+        out.append((name, [e for e in _log if e[0] != "v"], r))
+
+    def ctor_assign(cls, args, kw, assigns):
+        def run():
+            i = cls(*args, **kw)
+            st = [_fp_state(i)]
+            for n, v in assigns:
+                setattr(i, n, v)
+                st.append(_fp_state(i))
+            return st
+        return run
+
+    scen("FPvca", ctor_assign(FPvca, (" a ",), {}, [("x", "  padded  "), ("x", 3)]))
+    scen("FPva", ctor_assign(FPva, (1,), {}, [("y", 5), ("y", -1)]))
+    scen("FPavac", ctor_assign(FPavac, (), {"y": " z "}, [("y", " w "), ("n", 4)]))
+    scen("FPnested", ctor_assign(FPnested, (" z ",), {}, [("y", " w ")]))
+    scen("FPexc-kw", ctor_assign(FPexc, (), {"a": 1, "b": " s "}, []))
+    scen("FPexc-default", ctor_assign(FPexc, (1,), {}, []))
+    scen("FPexcs", ctor_assign(FPexcs, (), {"a": 1}, []))
+    scen("FPexcpost", ctor_assign(FPexcpost, (), {"a": 1}, []))
+    scen("FPpost", ctor_assign(FPpost, (3,), {}, [("a", 4)]))
+    scen("FPhash", lambda: (lambda i: (_fp_state(i), hash(i) == hash(FPhash(1)), hash(i) == hash(i)))(FPhash(1)))
+    scen("FPmixed", ctor_assign(FPmixed, (1,), {}, [("c", 9)]))
+
+    def pickled():
+        import pickle
+        e = FPexc(a=1, b=" s ")
+        e2 = pickle.loads(pickle.dumps(e))
+        return (_fp_state(e2), type(e2).__name__)
+    scen("FPexc-pickle", pickled)
+    return out
+
+
+_config._run_validators = True
+_FP_REFERENCE = _fp_scenarios()
+# literal anchors, so that the reference itself is not taken on trust
+assert _FP_REFERENCE[0] == ("FPvca", [("c",), ("c",), ("a", "x", "padded"), ("c",), ("a", "x", 3)],
+                            ["[('x', 'a')]", "[('x', 'padded')]", "[('x', 3)]"]), _FP_REFERENCE[0]
+assert _FP_REFERENCE[4][2] == ["[('a', 1), ('args', (1, 's')), ('b', 's')]"], _FP_REFERENCE[4]
+assert _FP_REFERENCE[5][2] == ["[('a', 1), ('args', (1, 'dflt')), ('b', 'dflt')]"], _FP_REFERENCE[5]
+
+
+# --- probes tied to C20/Pipe.v: random hook trees and init tails, run in the switch state reached at
+# the end of a case's operation sequence.
+_THR = [10 ** 9]
+_plog = []
+
+
+def _pv(inst, a, v):
+    _plog.append("(EvVal %d)" % v)
+    if v >= _THR[0]:
+        raise ValueError("rejected")
+
+
+def _pc(v):
+    _plog.append("(EvConv %d)" % v)
+    return v + 1
+
+
+def _mk_user(t):
+    def hook(inst, a, v):
+        _plog.append("(EvUser %d %d)" % (t, v))
+        return v + t + 2
+    hook.__name__ = "user%d" % t
+    return hook
+
+
+_USERS = [_mk_user(t) for t in range(4)]
+_pipe_classes = {}
+
+
+def _gen_tree(rng, depth=0):
+    r = rng.random()
+    if depth < 3 and r < (0.75 if depth == 0 else 0.25):
+        return ["P"] + [_gen_tree(rng, depth + 1) for _ in range(rng.randint(0, 4))]
+    return rng.choice(["V", "V", "C", ["U", rng.randrange(4)]])
+
+
+def _build_hook(t):
+    if t == "V":
+        return setters.validate
+    if t == "C":
+        return setters.convert
+    if t[0] == "U":
+        return _USERS[t[1]]
+    return setters.pipe(*[_build_hook(c) for c in t[1:]])
+
+
+def _enc_tree(t):
+    if t == "V":
+        return "HValidate"
+    if t == "C":
+        return "HConvert"
+    if t[0] == "U":
+        return "(HUser %d)" % t[1]
+    return "(HPipe %s)" % lst(_enc_tree(c) for c in t[1:])
+
+
+def _pipe_class(tree, as_list):
+    k = (repr(tree), as_list)
+    if k not in _pipe_classes:
+        if isinstance(tree, list) and tree[0] == "P" and as_list:
+            hook = [_build_hook(c) for c in tree[1:]]       # the list form of on_setattr
+        else:
+            hook = _build_hook(tree)
+        _pipe_classes[k] = attr.make_class("PipeProbe", {"x": attr.ib(validator=_pv, converter=_pc, on_setattr=hook)})
+    return _pipe_classes[k]
+
+
+def run_pipe_probe(spec):
+    """spec: {"tree":…, "list":bool, "thr":int, "v":int} -> (trace terms, stored value or None), disagreements"""
+    dis = []
+    cls = _pipe_class(spec["tree"], spec["list"])
+    _THR[0] = 10 ** 9
+    inst = cls(0)
+    old = inst.x
+    _plog.clear()
+    _THR[0] = spec["thr"]
+    try:
+        inst.x = spec["v"]
+        res = inst.x
+    except ValueError:
+        res = None
+        if inst.x != old:
+            dis.append("assignment rejected by a validator still changed the attribute: %r" % (spec,))
+    finally:
+        _THR[0] = 10 ** 9
+    return (list(_plog), res), dis
+
+
+_tail_classes = {}
+
+
+def _tail_class(n, post, cache, exc, slots):
+    k = (n, post, cache, exc, slots)
+    if k not in _tail_classes:
+        body = {"f%d" % i: attr.ib(validator=_tv) for i in range(n)}
+        body["plain"] = attr.ib(default=0)
+        ns = {}
+        if post:
+            def __attrs_post_init__(self):
+                _tlog.append("IPost")
+                # what has not happened yet when post-init runs
+                try:
+                    object.__getattribute__(self, "_attrs_cached_hash")
+                    _tlog.append("!hash cache initialised before post-init")
+                except AttributeError:
+                    pass
+                if isinstance(self, BaseException) and self.args != ():
+                    _tlog.append("!BaseException.__init__ ran before post-init")
+            ns["__attrs_post_init__"] = __attrs_post_init__
+        bases = (Exception,) if exc else (object,)
+        base = type("TailBase", bases, ns)
+        kw = dict(slots=slots)
+        if exc:
+            kw["auto_exc"] = True
+        if cache:
+            kw.update(eq=True, unsafe_hash=True, cache_hash=True)
+        _tail_classes[k] = attr.make_class("TailProbe", body, bases=(base,), **kw)
+    return _tail_classes[k]
+
+
+_tlog = []
+
+
+def _tv(inst, a, v):
+    _tlog.append("(IVal %d)" % v)
+    if v >= _THR[0]:
+        raise ValueError("rejected")
+
+
+def run_tail_probe(spec):
+    """spec: {"vals":[…], "post":b, "cache":b, "exc":b, "slots":b, "thr":int}"""
+    dis = []
+    cls = _tail_class(len(spec["vals"]), spec["post"], spec["cache"], spec["exc"], spec["slots"])
+    _tlog.clear()
+    _THR[0] = spec["thr"]
+    kw = {"f%d" % i: v for i, v in enumerate(spec["vals"])}
+    try:
+        inst = cls(**kw)
+        ok = True
+    except ValueError:
+        ok = False
+    finally:
+        _THR[0] = 10 ** 9
+    trace = [e for e in _tlog if not e.startswith("!")]
+    dis.extend("init tail order: %s (%r)" % (e[1:], spec) for e in _tlog if e.startswith("!"))
+    if ok:
+        if spec["cache"]:
+            try:
+                if object.__getattribute__(inst, "_attrs_cached_hash") is None:
+                    trace.append("IHashCache")
+            except AttributeError:
+                pass
+        if spec["exc"]:
+            want = tuple(spec["vals"]) + (0,)
+            if inst.args == want:
+                trace.append("IExcInit")
+            elif inst.args != ():
+                dis.append("exception args %r are neither () nor the field values %r (%r)" % (inst.args, want, spec))
+    return (trace, ok), dis
+
+
+def gen_probes(rng):
+    pipes = []
+    for _ in range(2):
+        tree = _gen_tree(rng)
+        thr = rng.choice([1000, 1000, rng.randint(0, 30)])
+        pipes.append({"tree": tree, "list": rng.random() < 0.5, "thr": thr, "v": rng.randint(0, 12)})
+    exc = rng.random() < 0.5
+    tail = {"vals": [rng.randint(0, 9) for _ in range(rng.randint(0, 3))], "post": rng.random() < 0.5,
+            "cache": (not exc) and rng.random() < 0.5, "exc": exc, "slots": rng.random() < 0.5,
+            "thr": rng.choice([1000, 1000, rng.randint(0, 10)])}
+    return {"pipes": pipes, "tails": [tail]}
+
+
+def _enc_thr(t):
+    # never a large nat literal: the validator threshold "never rejects" is encoded as 1000
+    return str(min(t, 1000))
+
+
+def enc_pipe_probe(spec, seen):
+    tr, res = seen
+    return "(Build_pipe_probe %s %s %d (%s, %s))" % (_enc_tree(spec["tree"]), _enc_thr(spec["thr"]), spec["v"], lst(tr),
+                                                   "None" if res is None else "(Some %d)" % res)
+
+
+def enc_tail_probe(spec, seen):
+    tr, ok = seen
+    return "(Build_tail_probe (Build_init_tail %s %s %s %s) %s (%s, %s))" % (
+        lst(str(v) for v in spec["vals"]), b(spec["post"]), b(spec["cache"]), b(spec["exc"]), _enc_thr(spec["thr"]),
+        lst(tr), b(ok))
+
+
 VAL_ONLY = (DFv, DFvl, ASvs, DFd)
 
 NONBOOL_POOL = [1, 0, None, "yes", 1.0]
@@ -133,6 +473,10 @@ def _probe():
         dis.append("setters.validate-only hook ran a converter")
     if any(c for _, c in val):
         dis.append("attr.validate ran a converter")
+    for got, want in zip(_fp_scenarios(), _FP_REFERENCE):
+        if got != want:
+            dis.append("switch state (get_run_validators()=%r) changes something other than validator calls: "
+                       "%s: trace/state %r, with validators enabled %r" % (gr, got[0], got[1:], want[1:]))
     return {
         "get_disabled": gd, "get_run": gr,
         "init_validates": init[0][0], "assign_validates": assign[0][0],
@@ -141,12 +485,13 @@ def _probe():
     }, dis
 
 
-def real_run(init, ops):
+def real_run(init, ops, probes=None):
     """ops: list of tuples ('sd', bool) | ('sr', value) | ('enter',) | ('exit', 'n'|'e')."""
     _config._run_validators = init
     open_cms = []
     seen = []
     disagreements = []
+    probe_seen = {"pipes": [], "tails": []}
     try:
         for o in ops:
             oc = "Done"
@@ -181,6 +526,14 @@ def real_run(init, ops):
             ob["outcome"] = oc
             seen.append(ob)
             disagreements.extend(dis)
+        for sp in (probes or {}).get("pipes", ()):
+            r, dis = run_pipe_probe(sp)
+            probe_seen["pipes"].append(r)
+            disagreements.extend(dis)
+        for sp in (probes or {}).get("tails", ()):
+            r, dis = run_tail_probe(sp)
+            probe_seen["tails"].append(r)
+            disagreements.extend(dis)
     finally:
         while open_cms:
             try:
@@ -188,7 +541,7 @@ def real_run(init, ops):
             except Exception:
                 pass
         _config._run_validators = True
-    return seen, disagreements
+    return seen, disagreements, probe_seen
 
 
 def enc_op(o):
@@ -212,10 +565,16 @@ def enc_obs(ob):
         b(ob["assign_converts"]))
 
 
-def mk_case(init, ops):
-    seen, dis = real_run(init, ops)
-    term = "(Build_case %s %s %s)" % (b(init), lst(enc_op(o) for o in ops), lst(enc_obs(x) for x in seen))
-    inp = {"init": init, "ops": [list(o) for o in ops]}
+def mk_case(init, ops, probes=None):
+    if probes is None:
+        probes = gen_probes(random.Random(repr((init, ops))))
+    seen, dis, ps = real_run(init, ops, probes)
+    term = "(Build_case %s %s %s %s %s)" % (
+        b(init), lst(enc_op(o) for o in ops), lst(enc_obs(x) for x in seen),
+        lst(enc_pipe_probe(sp, r) for sp, r in zip(probes["pipes"], ps["pipes"])),
+        lst(enc_tail_probe(sp, r) for sp, r in zip(probes["tails"], ps["tails"])))
+    inp = {"init": init, "ops": [list(o) for o in ops], "probes": probes}
+    seen = {"per_op": seen, "probes": ps}
     c = Case(term, inp, seen, sig={}, nontrivial=any(o[0] != "exit" for o in ops),
              key=repr((init, ops)))
     return c, dis
@@ -285,7 +644,7 @@ def extra(tier, seed):
 
 def rerun(inp):
     ops = [tuple(o) for o in inp["ops"]]
-    return mk_case(inp["init"], ops)[0]
+    return mk_case(inp["init"], ops, inp.get("probes"))[0]
 
 
 def corpus():
@@ -305,5 +664,31 @@ def distribution(cases):
     lens = Counter(len(c.inp["ops"]) for c in cases)
     ops = Counter(o[0] + (":" + ("bool" if isinstance(o[1], bool) else "nonbool") if o[0] == "sr" else "")
                   for c in cases for o in c.inp["ops"])
+    pp = Counter()
+    for c in cases:
+        for sp, (tr, res) in zip(c.inp["probes"]["pipes"], c.seen["probes"]["pipes"]):
+            pp["pipe probes"] += 1
+            pp["pipe: assignment rejected by validator"] += res is None
+            pp["pipe: validator ran"] += any(e.startswith("(EvVal") for e in tr)
+            pp["pipe: hook after a validate position ran"] += _hook_after_validate(sp["tree"])
+            pp["pipe: nested pipe"] += "['P'" in repr(sp["tree"])[1:]
+            pp["pipe: list form"] += sp["list"]
+        for sp, (tr, ok) in zip(c.inp["probes"]["tails"], c.seen["probes"]["tails"]):
+            pp["tail probes"] += 1
+            pp["tail: construction rejected"] += not ok
+            for k in ("post", "cache", "exc", "slots"):
+                pp["tail: " + k] += sp[k]
+            pp["tail: validators ran"] += any(e.startswith("(IVal") for e in tr)
     return {"sequence_lengths": dict(sorted(lens.items())), "operations": dict(ops),
-            "initial_enabled": sum(1 for c in cases if c.inp["init"])}
+            "initial_enabled": sum(1 for c in cases if c.inp["init"]), "probes": dict(pp)}
+
+
+def _flat(t):
+    if isinstance(t, list) and t[0] == "P":
+        return [x for c in t[1:] for x in _flat(c)]
+    return [t]
+
+
+def _hook_after_validate(tree):
+    f = _flat(tree)
+    return "V" in f and any(x != "V" for x in f[f.index("V") + 1:])
